@@ -405,13 +405,14 @@ def item_validator(kind: str):
 def session(job) -> List[Dict[str, Any]]:
     tid, kind, n, sd, with_fail, misuse = job[:6]
     ctx = job[6] if len(job) > 6 else None     # None | 'normal' | 'exception' | 'interrupt'
+    align = job[7] if len(job) > 7 else None   # (B, delta): a record of the document ends at offset B + delta
     Bid, Card, Contract, Hands, Pair, Player, Suit, TH, Vul = _imp()
     from bridge_env.data_handler.json_handler.parser import JsonParser
     from bridge_env.data_handler.json_handler.writer import (JsonBoardSettingWriter,
                                                              JsonLogWriter)
     r = rng('json', sd, tid)
-    sink = RecIO([None, None, 'ascii', 'cp1252', 'utf-8'][r.randrange(5)] if ctx is None else None)
-    dup_ids = r.random() < 0.2        # several boards with the same id (two tables, a replay)
+    sink = RecIO([None, None, 'ascii', 'cp1252', 'utf-8'][r.randrange(5)] if ctx is None and align is None else None)
+    dup_ids = r.random() < 0.2 and align is None        # several boards with the same id (two tables, a replay)
     wr = JsonLogWriter(sink) if kind == 'logs' else JsonBoardSettingWriter(sink)
     evs: List[Dict[str, Any]] = [{'tid': tid, 'ev': 'begin', 'kind': kind}]
     all_chunks: List[str] = []
@@ -467,6 +468,21 @@ def session(job) -> List[Dict[str, Any]]:
             else:
                 bad['board_id'] = object()
             call('write_fail', lambda: wr.write(**bad))
+        if align is not None and k == max(0, n - 2):
+            # the board id is padded so that this record ends exactly at (or one
+            # before / behind) a size readers like for their blocks
+            scratch = RecIO(None)
+            w2 = JsonLogWriter(scratch) if kind == 'logs' else JsonBoardSettingWriter(scratch)
+            w2.open()
+            if k > 0:
+                w2.write(**kw)
+            scratch.take()
+            w2.write(**kw)
+            grow = sum(len(ch) for ch in scratch.take())
+            pad = align[0] + align[1] - sum(len(ch) for ch in all_chunks) - grow
+            if pad > 0:
+                kw['board_id'] = str(kw['board_id']) + 'p' * pad
+                rec['id'] = cps(kw['board_id'])
         call('write', lambda: wr.write(**kw), rec)
     if ctx is None:
         call('close', wr.close)
@@ -545,6 +561,13 @@ def run_into(chk: Check, kinds: List[str], tier: str) -> None:
             n = [0, 1, 2, 3, 6][k % 5] if k % 11 else 12
             jobs.append((f'{kind[0]}{k}', kind, n, seed(), k % 7 == 3 and n > 0, k % 13 == 5,
                          [None, 'normal', None, 'exception', None, 'interrupt'][k % 6]))
+    # documents in which a record ends exactly at / next to the sizes a reader
+    # may use for its blocks (4 Ki, 8 Ki, 64 Ki, 128 Ki characters)
+    aligns = [(65536, 0), (65536, -1), (8192, 0)] if quick else \
+        [(b_, d_) for b_ in (4096, 8192, 65536, 131072) for d_ in (0, -1, 1, -2)]
+    for kind in kinds:
+        for k, al in enumerate(aligns):
+            jobs.append((f'{kind[0]}al{k}', kind, 2 + k % 3, seed(), False, False, None, al))
     events: List[Dict[str, Any]] = []
     for evs in pmap(session, jobs, chunk=4):
         events.extend(evs)
